@@ -277,6 +277,12 @@ func genC05(r *rng, tier string) *Case {
 	if r.chance(0.3) {
 		k = r.rangeInt(0, 12)
 	}
+	if (ctx == "collector-reduce" || ctx == "iir") && k == 0 {
+		k = 1 // the first element does not pass through the two-argument callback
+	}
+	if ctx == "merge-less" {
+		k = 0 // the less function only sees p while both lists still have elements: trigger on the first call
+	}
 	ks := "k"
 	f := func(x string) string { return faultExpr(fault, x, ks) }
 	var body string
